@@ -2,6 +2,9 @@ package props
 
 import (
 	"fmt"
+	"github.com/Oudwins/zog/zhttp"
+	"net/http"
+	"net/url"
 	"reflect"
 	"sort"
 	"strings"
@@ -206,6 +209,39 @@ func (h *c16Run) exec(s *z.StructSchema, data map[string]any, val c16Dest, valid
 	return
 }
 
+func (h *c16Run) execQuery(s *z.StructSchema, data map[string]any) (o c16Obs) {
+	var log []string
+	h.calls = &log
+	defer func() {
+		if r := recover(); r != nil {
+			o.panic = fmt.Sprint(r)
+		}
+		o.calls = strings.Join(log, ",")
+	}()
+	vals := url.Values{}
+	for k, v := range data {
+		switch x := v.(type) {
+		case []string:
+			for _, e := range x {
+				vals.Add(k, e)
+			}
+		case map[string]any:
+			for kk, vv := range x {
+				vals.Set(kk, fmt.Sprint(vv))
+			}
+		default:
+			vals.Set(k, fmt.Sprint(v))
+		}
+	}
+	rq, _ := http.NewRequest("GET", "/x?"+vals.Encode(), nil)
+	var d c16Dest
+	m := s.Parse(zhttp.Request(rq), &d)
+	all, _ := obs.CanonMap(m)
+	o.issues = obs.Multiset(all, func(c obs.CI) string { return c.Path + "|" + c.Code + "|" + c.Message })
+	o.dest = fmt.Sprintf("%+v", d)
+	return
+}
+
 func (h *c16Run) randomInput() (map[string]any, c16Dest) {
 	r := h.r
 	data := map[string]any{}
@@ -336,11 +372,16 @@ func (c16) RunCase(c *core.Ctx) {
 					got := h.exec(m.real, data, val, validate)
 					want := h.exec(hb, data, val, validate)
 					c.Eval(2)
+					mode := "Parse"
+					if validate {
+						mode = "Validate"
+					} else if got == want && k == 0 {
+						// the same record as a query string (a flat source: nested fields are read from the same parameters)
+						got, want = h.execQuery(m.real, data), h.execQuery(hb, data)
+						mode = "Parse (query string)"
+						c.Eval(2)
+					}
 					if got != want {
-						mode := "Parse"
-						if validate {
-							mode = "Validate"
-						}
 						cls := "issues-or-destination"
 						if got.panic != want.panic {
 							cls = "panic"
@@ -373,8 +414,22 @@ func (c16) RunCase(c *core.Ctx) {
 		}
 		var nm *c16Model
 		mutated := -1
-		op := []int{0, 1, 2, 3, 4, 5, 5, 5, 6, 6, 7, 8, 9}[r.Intn(13)]
+		op := []int{0, 1, 2, 3, 4, 5, 5, 5, 6, 6, 7, 8, 9, 10}[r.Intn(14)]
 		switch op {
+		case 10: // a rule is added to a nested field schema object that this schema (and everything derived from or merged with it) holds:
+			// every schema holding the object - as the hand-written ones do - runs the rule from now on
+			if child, ok := sm.fields["addr"].(*z.StructSchema); ok {
+				id := h.nextID
+				h.nextID++
+				fail := r.Intn(3) == 0
+				child.TestFunc(func(val any, ctx z.Ctx) bool {
+					*h.calls = append(*h.calls, fmt.Sprintf("nested-rule%d(%T)", id, val))
+					return !fail
+				}, z.Message(fmt.Sprintf("nested rule %d failed", id)))
+				history = append(history, fmt.Sprintf("a rule (nested-rule%d) is added to the addr field schema object of S%d", id, src))
+				before = nil
+				nontrivial = true
+			}
 		case 9: // composite: two rule-less schemas merged twice with one rule-only schema, then rules are added to several of the results
 			mkPlain := func() *c16Model {
 				m := &c16Model{fields: map[string]z.ZogSchema{}, parent: -1}
